@@ -149,7 +149,7 @@ PIN_CITE_TOKEN_REGEX = r"""
         \d+(?:-\d+)?
     )
 """
-PIN_CITE_REGEX = rf"""
+_PIN_CITE_TEMPLATE = rf"""
     (?P<pin_cite>
         # optional comma, space, "at" before pin cite
         ,?\ ?(?:at\ )?
@@ -162,10 +162,15 @@ PIN_CITE_REGEX = rf"""
         (?=
             [,.;)\]\\]|  # ending punctuation
             \ ?[(\[]|    # space and start of parens
-            $            # end of text
+            END_OF_TEXT  # end of text
         )
     )
 """
+PIN_CITE_REGEX = _PIN_CITE_TEMPLATE.replace("END_OF_TEXT", "$")
+# The text scanned after a short, id. or supra citation also ends where the
+# next special token starts, which may be after a blank: in
+# "Id. at 5 (citing Foo)" the stop word token begins at the parenthesis.
+SHORT_PIN_CITE_REGEX = _PIN_CITE_TEMPLATE.replace("END_OF_TEXT", r"\ ?$")
 
 # Law subsection regex:
 # Capture a single subsection like "(a)", "(1)", or "(viii)":
@@ -272,7 +277,7 @@ PRE_FULL_CITATION_REGEX = rf"""
 #   parenthetical = overruling xyz
 POST_SHORT_CITATION_REGEX = rf"""
     # optional pin cite
-    {PIN_CITE_REGEX}?
+    {SHORT_PIN_CITE_REGEX}?
     \ ?
     # optional parenthetical comment:
     {PARENTHETICAL_REGEX}
